@@ -158,7 +158,9 @@ impl Numeric {
                         if den > BigInt::from(1_000u64) || num > BigInt::from(1_000_000u64) {
                             (None, Some(v))
                         } else {
-                            (Some(format!("{}/{}", num, den)), Some(v))
+                            let frac =
+                                format!("{}/{}", num.to_str_radix(base), den.to_str_radix(base));
+                            (Some(frac), Some(v))
                         }
                     }
                 }
